@@ -22,7 +22,7 @@ CFGS = {
             "thorough": ["c15_text_t", "c15_attr_t", "c15_comment_t", "c15_cdata_t", "c15_pi_t"]},
     # the data-setter / factory part of C13 rides on the C15 alphabets (markup characters)
     # ... and on the multi-byte alphabet of C16 (INDEX_SIZE_ERR is one of C13's exception classes: offsets are characters)
-    "C13": {"quick": ["c15_text_q", "c15_attr_q", "c16q"],
+    "C13": {"quick": ["c15_text_q", "c15_attr_q", "c15_comment_q", "c15_cdata_q", "c16q"],
             "thorough": ["c15_text_q", "c15_comment_q", "c15_cdata_q", "c15_attr_q", "c15_pi_q", "c16q"]},
 }
 KEY = {"C13": "c13", "C15": "c15", "C16": "c16"}
